@@ -2,7 +2,7 @@
    Full-strength statement: C16 (see DESIGN.md section 7) (Cluster/Statements.v). Proved so far: the theorems below; what is
    not yet proved is decided on every run by the lock-step co-simulation (model = implementation on every
    explored schedule) together with the monitors run on the implementation's own observations. *)
-From RaftV Require Import Cluster.World Cluster.Statements Proofs.RVSpec Proofs.AESpec Proofs.ReadSpec Proofs.StickyWorld.
+From RaftV Require Import Cluster.World Cluster.Statements Proofs.RVSpec Proofs.AESpec Proofs.ReadSpec Proofs.StickyWorld Proofs.ContactSpec Proofs.StickyTime.
 Open Scope N_scope.
 
 (* RequestVote, every voter state x every request *)
@@ -99,3 +99,53 @@ Proof.
   split; [apply N.eqb_eq, H2|]. split; [|exact Er].
   unfold sticky. split; [apply Bool.negb_true_iff, H3|]. split; [apply Bool.negb_true_iff, H4|exact H5].
 Qed.
+
+(* What makes a voter sticky (node level, every state and request): handling an AppendEntries request of the node's own
+   or a newer term - accepted or rejected, heartbeat or not - records the leader contact at the current time, and nothing
+   else in the handler moves it; a request of an older term changes nothing at all. *)
+Theorem C16_append_entries_records_leader_contact : forall now n q,
+  role_eqb (n_role n) Shutdown = false -> (ae_term q <? n_term n) = false ->
+  let n' := fst (h_append_entries now n q) in n_contact n' = now /\ n_et n' = n_et n /\ n_id n' = n_id n.
+Proof. exact ae_records_contact. Qed.
+Print Assumptions C16_append_entries_records_leader_contact.
+
+Theorem C16_stale_append_entries_changes_nothing : forall now n q,
+  (ae_term q <? n_term n) = true -> fst (h_append_entries now n q) = n.
+Proof. exact ae_stale_term_changes_nothing. Qed.
+Print Assumptions C16_stale_append_entries_changes_nothing.
+
+(* The timing half of C16 in its one-voter form, cluster level, ANY world: a running voter handles an AppendEntries
+   request of its own or a newer term at time t; any amount of time dt shorter than its election timeout passes; then
+   whatever vote request reaches that voter - prevote or real, of any term, from any node, delivered once or twice -
+   changes no node of the cluster.  So a leader whose requests reach a voter at intervals shorter than the election
+   timeout keeps that voter out of every election, whatever the remaining nodes do.  (Not proved: the composition over
+   a majority and over an unbounded run, i.e. "the leader never steps down and the majority's term never increases".) *)
+Theorem C16_no_vote_within_an_election_timeout_of_a_heartbeat : forall w cid c n q dt,
+  get_call w cid = Some c -> c_state c = CPending -> c_req c = ReqAE q ->
+  get_node w (c_dst c) = Some n -> n_frozen n = false -> role_eqb (n_role n) Shutdown = false ->
+  (ae_term q <? n_term n) = false -> dt < n_et n ->
+  let w1 := step w (LDeliver cid) in
+  let w2 := step w1 (LTick dt) in
+  forall n1, get_node w1 (c_dst c) = Some n1 -> n_frozen n1 = false -> role_eqb (n_role n1) Shutdown = false ->
+    sticky w2 n1 /\
+    forall cid' c' q', get_call w2 cid' = Some c' -> c_dst c' = c_dst c -> c_req c' = ReqRV q' ->
+      forall id, get_node (step w2 (LDeliver cid')) id = get_node w2 id /\
+                 get_node (step w2 (LDup cid')) id = get_node w2 id.
+Proof. exact heartbeat_then_vote_request. Qed.
+Print Assumptions C16_no_vote_within_an_election_timeout_of_a_heartbeat.
+
+(* not vacuous: in the reachable world just before node 1 receives the first heartbeat of leader 0 (call 4), every
+   premise holds with dt = 3 (election timeout 4) *)
+Definition c16_labels_hb : list label :=
+  [LTick 4; LElection 0; LElectionRun 0; LTask 0; LTask 0; LDeliver 0; LReply 0; LElectionRun 0; LTask 0; LTask 0;
+   LDeliver 1; LReply 1; LDeliver 2; LReply 2; LTask 0; LTask 0].
+Example C16_heartbeat_premises_hold :
+  let w := run (init_world [0; 1; 2] [0; 1; 2] 4 2) c16_labels_hb in
+  match get_call w 4 with
+  | Some c => match get_node w (c_dst c), get_node (step w (LDeliver 4)) (c_dst c), c_state c, c_req c with
+              | Some n, Some n1, CPending, ReqAE q =>
+                  negb (n_frozen n) && negb (role_eqb (n_role n) Shutdown) && negb (ae_term q <? n_term n) && (3 <? n_et n) &&
+                  negb (n_frozen n1) && negb (role_eqb (n_role n1) Shutdown)
+              | _, _, _, _ => false end
+  | None => false end = true.
+Proof. vm_compute. reflexivity. Qed.
